@@ -34,6 +34,9 @@ func main() {
 			nf := 0
 			var fails []string
 			for _, o := range r.Obligations {
+				if o.GroupHead {
+					continue
+				}
 				if o.Failed() {
 					nf++
 					if len(fails) < 6 {
@@ -100,6 +103,9 @@ func cmdVerify(args []string) {
 			}
 		}
 		for _, o := range r.Obligations {
+			if o.GroupHead {
+				continue
+			}
 			st := "?"
 			sv := ""
 			if o.Result != nil {
